@@ -172,6 +172,8 @@ def run(ctx):
         scs.append(G.gen_crossing_scenario(ctx.rng))
     for i in range(12 if quick else 300):
         scs.append(G.gen_fork_scenario(ctx.rng))
+    for i in range(10 if quick else 300):
+        scs.append(G.gen_param_scenario(ctx.rng))
     if not quick:
         fam = G.exhaustive_family(3)
         scs += fam
@@ -226,12 +228,24 @@ def run(ctx):
                 else:
                     fails.append(("in-memory voting power rank (total power, buckets) differs from loadVpr(state) at a block boundary",
                                   {"scenario": sc, "step": k - 1, "mem": d["mem"], "reload": d["reload"]}))
+            if not has_ghost:
+                # the value scheduled for the next block (the `next` slot if filled, else the current one)
+                # is the one in the system contract state — after every transaction, not only at boundaries
+                for pi in range(4):
+                    want = d["pdb"][pi] if d["pdb"][pi] != "" else dumps[0]["pcur"][pi]
+                    sched = d["pnext"][pi] if d["pnext"][pi] != "" else d["pcur"][pi]
+                    if sched != want:
+                        known.append(("C15:param-scheduled-differs-from-state",
+                                      "the parameter value scheduled in memory for the next block differs from the value written to the system contract state",
+                                      {"scenario": sc, "step": k - 1, "param": pi, "scheduled": sched, "state": want}))
+                    if at_boundary and d["pnext"][pi] != "":
+                        known.append(("C15:param-next-slot-not-empty-at-boundary", "a `next` parameter slot survives CommitParams", {"scenario": sc, "step": k - 1, "param": pi}))
             if at_boundary and not has_ghost:
                 for pi in range(4):
                     want = d["pdb"][pi] if d["pdb"][pi] != "" else dumps[0]["pcur"][pi]
                     if d["pcur"][pi] != want:
-                        known.append(("C15:param-negative-sign-dropped",
-                                      "in-memory system parameter differs from the one loaded from state at a block boundary (negative vote candidate, sign dropped by Bytes())",
+                        known.append(("C15:param-memory-differs-from-state",
+                                      "after CommitParams at a block boundary the in-memory system parameter (value in effect for the running node) differs from the one in the system contract state (what a restarted / reorganised node loads)",
                                       {"scenario": sc, "step": k - 1, "param": pi, "memory": d["pcur"][pi], "state": want}))
             tree_differs = at_boundary and not has_ghost and G.vpr_mem_equals_reload(d) and (d["mem"]["tree"] or []) != (d["reload"]["tree"] or [])
             if d["mem"].get("treecorrupt") or tree_differs:
